@@ -872,6 +872,8 @@ class FDE:
                 except Exception as ex:  # noqa
                     raise Raised(type(ex).__name__)
                 return list(r) if n in ('range', 'enumerate', 'zip', 'reversed', 'map', 'filter') else r
+            if n in env and callable(env[n]) and getattr(env[n], '_fde_ok', False):
+                return env[n](*args, **kwargs)
             if n in env and isinstance(env[n], tuple) and env[n] and env[n][0] == 'closure':
                 return self._invoke(env[n][1], args, kwargs, base_env=env[n][2])
             if n in env and isinstance(env[n], tuple) and len(env[n]) == 2 and env[n][0] == 'class':
